@@ -70,6 +70,12 @@ def run_case(c):
     else:
         P = h.build(rng, n, c['mattype'], c['spectrum'], c['k'], radius=radius, vreal=c['vreal'])
     A, v, kdim = P['A'], P['v'], P['kdim']
+    if not c.get('mapform') and c['seed'] % 6 == 1 and c['vreal'] and np.max(np.abs(v)) > 0:
+        vi = np.rint(3 * np.real(v) / np.max(np.abs(v))).astype(np.int64)       # integer-dtype start vector (promoted by the routine itself)
+        if np.any(vi != 0) and kdim == n:
+            v = vi
+    elif not c.get('mapform') and c['seed'] % 6 == 2 and np.linalg.norm(v) > 0:
+        v = v / np.linalg.norm(v) * (1 + 6e-9)                                  # almost, but not exactly, normalised
     nA = float(np.linalg.norm(A, 2))
     sc = max(1.0, nA)
     Afunc = P.get('Afunc') or (lambda x: A @ x)
